@@ -220,6 +220,16 @@ func (e *Engine) funcID(fn *ssa.Function) Term {
 	return fmt.Sprint(id)
 }
 
+// contractID is the identity of a contracted callee in the ghost call log.
+func (e *Engine) contractID(ct *Contract) Term {
+	for i, k := range e.db.Order {
+		if e.db.Contracts[k] == ct {
+			return fmt.Sprint(700000000 + i)
+		}
+	}
+	return "0"
+}
+
 func (e *Engine) contractFor(fn *ssa.Function) *Contract {
 	if k, ok := e.fnKeys[fn]; ok {
 		if ct := e.db.Contracts[k]; ct != nil {
